@@ -33,11 +33,13 @@ AllNZ(order, node) == [i \in 1..(order - 1) |-> BC(node, i, R(2 * i - 5, 2))]
 BcSets(order) ==
   {AllAt(order, 0, ROne), AllAt(order, 1, FromInt(-2)), AllAt(order, 0, RZero), AllNZ(order, 0), AllNZ(order, 1)} \cup Mixed(order)
 
+\* order 4 on the strongly non-uniform grid leaves TLC's 32-bit integers (64^4 in the denominators)
+OrdersOn(x) == IF x.g = R5 THEN Orders \cap 1..3 ELSE Orders
 CasesFor(x) ==
   LET n == SupSize(x) IN
   UNION {{[op |-> "Interp", x |-> x, y |-> y, order |-> o, dflt |-> 1, bcs |-> DefaultBcs(o)] : y \in Ys(n)}
          \cup {[op |-> "Interp", x |-> x, y |-> y, order |-> o, dflt |-> 0, bcs |-> b] : y \in {YVar(n, 0), YVar(n, 1)}, b \in BcSets(o)}
-         : o \in Orders}
+         : o \in OrdersOn(x)}
   \* argument validation (C11): every size pair, every boundary derivative order
   \cup (IF x = SupWhole(U5)
         THEN {[op |-> "Interp", x |-> Sup(U5, 0, nx), y |-> YVar(ny, 0), order |-> 2, dflt |-> 1, bcs |-> DefaultBcs(2)] : nx \in 0..4, ny \in 0..4}
@@ -56,6 +58,13 @@ Emit == (st'.ph = 1) => CSVWrite("%1$s", <<ToJson(st'.c)>>, OutFile)
 \* the relation is satisfiable and singles out the known solution for order 1
 LinearOK == st.ph = 1 /\ st.c.order = 1 /\ ArgsValid(st.c.x, st.c.y, 1, st.c.bcs) =>
   InterpPost(st.c.x, st.c.y, 1, <<>>, LinearInterpI(st.c.x, st.c.y))
+\* Level I => Level A for every order, and the solvability claim: on the sets
+\* KnownSolvable names, the assembled system is non-singular
+SmallCase(c) == SupSize(c.x) <= (IF c.order >= 3 THEN 3 ELSE 4) /\ \A i \in DOMAIN c.x.g : c.x.g[i][2] = 1
+AssemblyOK == st.ph = 1 /\ ArgsValid(st.c.x, st.c.y, st.c.order, st.c.bcs) /\ SmallCase(st.c) =>
+  LET r == InterpI(st.c.x, st.c.y, st.c.order, st.c.bcs)
+  IN /\ (KnownSolvable(st.c.order, st.c.bcs) => r # <<>>)
+     /\ (r # <<>> => InterpPost(st.c.x, st.c.y, st.c.order, st.c.bcs, r))
 \* default boundary sets have the documented shape and are admissible
 DefaultOK == \A o \in 1..5 :
   /\ Len(DefaultBcs(o)) = o - 1
